@@ -1013,3 +1013,159 @@ Section RP.
   Qed.
 
 End RP.
+
+(* ------------------------------------------------------------------ 7. the generated parameters *)
+Lemma gc_swap_le j p : gc_swap j p = true -> p <= j.
+Proof. unfold gc_swap. intros H. bdestr; lia. Qed.
+
+Lemma gc_swap_ge j p : gc_swap j p = false -> j <= p.
+Proof. unfold gc_swap. intros H. bdestr; lia. Qed.
+
+Definition Gstep (hashf : N -> N) (owns : N -> list N) (rf nf : bool) :=
+  gc_step hashf gc_swap gc_primes gc_load_num gc_load_den owns rf nf.
+Definition Grun (hashf : N -> N) (owns : N -> list N) (rf nf : bool) :=
+  gc_run hashf gc_swap gc_primes gc_load_num gc_load_den owns rf nf.
+Definition Gadm (hashf : N -> N) (owns : N -> list N) (rf nf : bool) :=
+  adm_run hashf gc_swap gc_primes gc_load_num gc_load_den owns rf nf.
+Definition Gsweep (hashf : N -> N) (owns : N -> list N) (rf nf : bool) :=
+  gc_sweep hashf gc_swap gc_primes gc_load_num gc_load_den owns rf nf.
+Definition Grem (hashf : N -> N) (owns : N -> list N) (rf : bool) :=
+  gc_rem hashf gc_swap gc_primes gc_load_num gc_load_den owns rf.
+
+Theorem registry_step_thm : forall hashf owns rf nf g o,
+  Inv hashf g -> Quiet g -> admissible g o ->
+  exists g' out, Gstep hashf owns rf nf g o = (g', out) /\ out <> OFuel /\ out <> OCrash /\
+    Inv hashf g' /\ Quiet g' /\
+    (forall p, o = OMem p -> out = OBool true <-> exists s, Reg g p s).
+Proof.
+  intros. apply gc_step_ok; auto using gc_swap_le, gc_swap_ge, gc_ideal_gt.
+Qed.
+
+Theorem registry_history_thm : forall hashf owns rf nf ops,
+  Gadm hashf owns rf nf ops gc_init ->
+  Inv hashf (Grun hashf owns rf nf ops gc_init) /\ Quiet (Grun hashf owns rf nf ops gc_init).
+Proof.
+  intros. destruct (Inv_init hashf). apply gc_run_ok; auto using gc_swap_le, gc_swap_ge, gc_ideal_gt.
+Qed.
+
+(* the property in one statement: after every admissible history the registry holds exactly
+   what the ledger of the history says, each object once with its root flag, the count is
+   right, lookups answer by the ledger, no mark bit is left, the address bounds enclose every
+   entry, and the pending list is empty *)
+Theorem registry_is_ledger_thm : forall hashf owns rf nf ops,
+  Gadm hashf owns rf nf ops gc_init ->
+  let g := Grun hashf owns rf nf ops gc_init in
+  (forall q s, Reg g q s <-> led (evs g) q s) /\
+  NoDup (map ptr (entries (slots g))) /\
+  nitems g = length (entries (slots g)) /\
+  (nslots g = 0 \/ nitems g < nslots g) /\
+  (forall p, exists b, gc_mem hashf g p = Some b /\ (b = true <-> exists s, led (evs g) p s)) /\
+  (forall e, In e (entries (slots g)) -> marked e = false /\ (minptr g <= ptr e <= maxptr g)%N) /\
+  pending g = [].
+Proof.
+  intros hashf owns rf nf ops Ha g. destruct (registry_history_thm hashf owns rf nf ops Ha) as [[H Hcl] Hq].
+  fold g in H, Hcl, Hq. destruct (Inv_nodup hashf g H) as [Hnd Hcnt].
+  split; [apply (inv_led hashf g H)|]. split; [exact Hnd|]. split; [exact Hcnt|]. split; [apply (inv_room hashf g H)|].
+  split; [|split; [|exact Hq]].
+  - intros p. destruct (gc_mem_ok hashf g p H) as [b [Hb Hbs]]. exists b. split; [exact Hb|].
+    rewrite Hbs. split; intros [s Hs]; exists s; apply (inv_led hashf g H); assumption.
+  - intros e He. apply in_entries in He. split; [apply Hcl; assumption|apply (inv_bounds hashf g H); assumption].
+Qed.
+
+(* GC_Sweep's compaction loop started at slot 0 on any marking: never out of fuel, keeps the
+   robin-hood invariant, keeps exactly the marked-or-root entries and hands exactly the others
+   to the pending list, in the order of the Reclaim events *)
+Theorem sweep_loop_exact_thm : forall hashf (l : list gslot) nit pl ev,
+  Core hashf l -> (length l = 0 \/ occupied l < length l) ->
+  exists l' rm,
+    sweep_loop (length l + occupied l + 1) l 0 nit pl ev
+      = Some (l', nit - length rm, pl ++ pend_of rm, reclaim_evs rm ++ ev) /\
+    Core hashf l' /\ length l' = length l /\
+    (forall x, Holds l' x <-> Holds l x /\ keeper x = true) /\
+    (forall x, In x rm <-> Holds l x /\ keeper x = false) /\
+    occupied l' + length rm = occupied l.
+Proof.
+  intros hashf l nit pl ev Hc Hroom.
+  apply (sweep_loop_ok hashf gc_swap 0%N (fun _ => []) gc_swap_le); auto; [intros; lia|lia].
+Qed.
+
+Theorem sweep_total_thm : forall hashf owns rf nf g, InvM hashf g -> Quiet g ->
+  exists g', Gsweep hashf owns rf nf g = Some g' /\ Inv hashf g' /\ Quiet g'.
+Proof.
+  intros. apply gc_sweep_ok; auto using gc_swap_le, gc_swap_ge, gc_ideal_gt.
+Qed.
+
+(* GC_Rem in any state satisfying the invariant — in particular in the middle of a sweep's
+   finaliser loop (pending list not empty) and from inside another removal: the nesting fuel
+   `nitems + live pending entries + 1` is enough, the invariant (ledger included) is kept *)
+Theorem removal_during_sweep_thm : forall hashf owns rf g p f,
+  Inv hashf g -> measure g < f ->
+  exists g', Grem hashf owns rf f g p = Some g' /\ Inv hashf g' /\ measure g' <= measure g /\
+             length (pending g') = length (pending g).
+Proof.
+  intros hashf owns rf g p f Hi Hm.
+  apply (gc_rem_ok hashf gc_swap gc_primes gc_load_num gc_load_den owns rf gc_swap_le gc_swap_ge gc_ideal_gt f g p Hi Hm).
+Qed.
+
+(* the executable ledger used as the oracle of the correspondence check is `led` *)
+Lemma drop_ptr_in p l q s : In (q, s) (drop_ptr p l) <-> In (q, s) l /\ q <> p.
+Proof.
+  unfold drop_ptr. rewrite filter_In. simpl. destruct (N.eqb_spec q p); simpl; intuition congruence.
+Qed.
+
+Theorem led_list_spec_thm : forall l q s, In (q, s) (led_list l) <-> led l q s.
+Proof.
+  induction l as [|e l IH]; intros q s; simpl; [tauto|].
+  destruct e as [p r|p|p|p]; simpl.
+  - rewrite IH. split; [intros [H|H]; [left; injection H; auto|right; assumption]|].
+    intros [[-> ->]|H]; [left; reflexivity|right; assumption].
+  - rewrite drop_ptr_in, IH. tauto.
+  - rewrite drop_ptr_in, IH. tauto.
+  - apply IH.
+Qed.
+
+(* ------------------------------------------------------------------ 8. decidable admissibility *)
+Definition is_reg (l : list gslot) (p : N) : bool := existsb (fun e => N.eqb (ptr e) p) (entries l).
+
+Definition admb (g : gc) (o : op) : bool :=
+  match o with
+  | OAlloc p _ _ => negb (running g) || negb (is_reg (slots g) p)
+  | _ => true
+  end.
+
+Lemma admb_ok g o : admb g o = true -> admissible g o.
+Proof.
+  destruct o as [p r ws|p|p|ws| | | |p]; simpl; auto.
+  intros H Hrun e He Hp. rewrite Hrun in H. simpl in H. apply negb_true_iff in H.
+  assert (is_reg (slots g) p = true); [|congruence].
+  unfold is_reg. apply existsb_exists. exists e. split; [apply in_entries; assumption|apply N.eqb_eq; assumption].
+Qed.
+
+Fixpoint adm_runb (hashf : N -> N) (owns : N -> list N) (rf nf : bool) (ops : list op) (g : gc) : bool :=
+  match ops with
+  | [] => true
+  | o :: r => admb g o && adm_runb hashf owns rf nf r (fst (Gstep hashf owns rf nf g o))
+  end.
+
+Lemma adm_runb_ok hashf owns rf nf ops : forall g, adm_runb hashf owns rf nf ops g = true -> Gadm hashf owns rf nf ops g.
+Proof.
+  induction ops as [|o ops IH]; intros g H; simpl in *; [exact I|].
+  apply andb_prop in H. destruct H as [H1 H2]. split; [apply admb_ok; assumption|apply IH; assumption].
+Qed.
+
+(* ------------------------------------------------------------------ 9. witnesses *)
+Definition ex_hash (p : N) : N := N.shiftr p 3.
+(* object 8 owns 16 and 24; object 16 owns 8 (a cycle); everything else owns nothing *)
+Definition ex_owns (p : N) : list N :=
+  if N.eqb p 8 then [16; 24]%N else if N.eqb p 16 then [8]%N else [].
+(* allocations colliding modulo 5 (homes 1,1,1), a collection that reclaims 8 and 16 whose
+   destructors delete a pending object and the marked survivor 24 from inside the sweep, an
+   explicit deletion, re-use of a freed address, a root *)
+Definition ex_ops : list op :=
+  [OAlloc 8 false [8]; OAlloc 48 false [8; 48]; OAlloc 88 false [8; 48; 88];
+   OAlloc 16 false [8; 48; 88; 16]; OAlloc 24 false [8; 48; 88; 16; 24];
+   OMem 48; OCollect [24; 48; 88]; OMem 24; ORem 48; OAlloc 48 true [48; 88]; OStop; OAlloc 56 false [];
+   OStart; OCollect []; OMem 48; OMem 88]%N.
+
+(* the precondition on allocations is needed: registering an address twice breaks the count *)
+Definition bad_ops : list op := [OAlloc 8 false [8]; OAlloc 8 false [8]]%N.
